@@ -13,11 +13,14 @@ import (
 	"path/filepath"
 	"runtime/debug"
 	"sort"
+	"strconv"
 	"strings"
 	"sync"
+	"sync/atomic"
 	"time"
 
 	"github.com/alicebob/miniredis/v2"
+	redisserver "github.com/alicebob/miniredis/v2/server"
 	corev3 "github.com/envoyproxy/go-control-plane/envoy/config/core/v3"
 	envoy "github.com/envoyproxy/go-control-plane/envoy/service/auth/v3"
 	"github.com/lestrrat-go/jwx/v2/jwk"
@@ -41,11 +44,11 @@ import (
 // ---------------------------------------------------------------------------------------------
 
 type procEnv struct {
-	dir    string
-	ecKeys []*SignKey
+	dir     string
+	ecKeys  []*SignKey
 	rsaKeys []*SignKey
-	redis  map[string]*miniredis.Miniredis // "redis", "redis2"
-	logger telemetry.Logger
+	redis   map[string]*miniredis.Miniredis // "redis", "redis2"
+	logger  telemetry.Logger
 }
 
 var penv *procEnv
@@ -223,6 +226,7 @@ type World struct {
 	k8sRef           map[string]string // secret name -> value as of the last completed reconcile
 	crossFilterKnown bool
 	corruptStore     bool
+	jwksBusy         bool
 	Boots            int
 	evlog            []string
 	SimSecs          float64
@@ -584,10 +588,10 @@ type spyStore struct {
 	filter int
 }
 
-func (s *spyStore) call(method, sid string, fn func() error) *SpyEv {
+func (s *spyStore) call(ctx context.Context, method, sid string, fn func() error) *SpyEv {
 	w := s.w
-	task := w.Sim.Cur()
-	w.Sim.Yield("store:" + method)
+	task := w.taskOf(ctx)
+	w.Sim.YieldAs(task, "store:"+method)
 	w.Sim.SetCur(task)
 	w.syncRedis()
 	ev := &SpyEv{Seq: w.Sim.Tick(), At: time.Now(), Filter: s.filter, Method: method, SID: sid}
@@ -617,6 +621,39 @@ func (s *spyStore) call(method, sid string, fn func() error) *SpyEv {
 		ev.Err = fn()
 		m.SetError("")
 		ev.Applied = true
+	case ev.Fault == "ctx-cancel":
+		if ev.Check != nil {
+			ev.Check.Faults = ev.Check.Faults[:len(ev.Check.Faults)-1] // not a failure of the call itself
+			ev.Check.cancelNow(w)
+		}
+		ev.Err = fn()
+		ev.Applied = true
+	case strings.HasPrefix(ev.Fault, "redis-torn:"):
+		// the Redis server starts refusing commands BETWEEN two commands of this store call (out of memory, MISCONF
+		// after a failed snapshot, ...): the first k-1 data commands are executed, every later one is answered with
+		// an error on the live connection, so a multi-command write is left torn. Inside MULTI the refused command
+		// aborts the transaction, as in Redis. The memory store has no such intermediate state (one mutex): plain
+		// failure before the effect.
+		m := penv.server(w.storeKind(s.filter))
+		if m == nil {
+			w.countFault("store-err-before")
+			ev.Err = errors.New("sim: injected store failure (before effect)")
+			break
+		}
+		k, _ := strconv.Atoi(strings.TrimPrefix(ev.Fault, "redis-torn:"))
+		var n, failed atomic.Int64
+		m.Server().SetPreHook(oomHook(m.Server(), k, &n, &failed))
+		ev.Err = fn()
+		m.Server().SetPreHook(nil)
+		ev.Applied = true
+		if failed.Load() > 0 {
+			w.countFault("redis-torn-store-call")
+			if n.Load()-failed.Load() > 0 {
+				w.probe("store-call-left-partially-applied")
+			}
+		} else if ev.Check != nil {
+			ev.Check.Faults = ev.Check.Faults[:len(ev.Check.Faults)-1] // the call had fewer than k commands: nothing failed
+		}
 	case ev.Fault == "crash-before":
 		w.countFault("crash-at-store-call")
 		w.Spy = append(w.Spy, ev)
@@ -658,23 +695,26 @@ func (s *spyStore) call(method, sid string, fn func() error) *SpyEv {
 		ev.Err = fn()
 		ev.Applied = true
 	}
+	if ev.Err != nil && (ev.Fault == "" || ev.Fault == "ctx-cancel") && ev.Check != nil && ev.Check.Cancelled && isRedisKind(w.storeKind(s.filter)) {
+		ev.Check.failedAfterCancel("store." + method)
+	}
 	w.Spy = append(w.Spy, ev)
 	if ev.Check != nil {
 		ev.Check.Spy = append(ev.Check.Spy, ev)
 	}
-	w.Sim.Yield("store:" + method + ":ret")
+	w.Sim.YieldAs(task, "store:"+method+":ret")
 	w.Sim.SetCur(task)
 	return ev
 }
 
 func (s *spyStore) SetTokenResponse(ctx context.Context, id string, t *oidc.TokenResponse) error {
-	ev := s.call("SetTokenResponse", id, func() error { return s.inner.SetTokenResponse(ctx, id, t) })
+	ev := s.call(ctx, "SetTokenResponse", id, func() error { return s.inner.SetTokenResponse(ctx, id, t) })
 	ev.Tokens = t
 	return ev.Err
 }
 func (s *spyStore) GetTokenResponse(ctx context.Context, id string) (*oidc.TokenResponse, error) {
 	var t *oidc.TokenResponse
-	ev := s.call("GetTokenResponse", id, func() (err error) { t, err = s.inner.GetTokenResponse(ctx, id); return })
+	ev := s.call(ctx, "GetTokenResponse", id, func() (err error) { t, err = s.inner.GetTokenResponse(ctx, id); return })
 	if ev.Err != nil {
 		return nil, ev.Err
 	}
@@ -715,13 +755,13 @@ func (s *spyStore) SetAuthorizationState(ctx context.Context, id string, a *oidc
 	if a != nil {
 		s.w.addSecret("code-verifier", a.CodeVerifier)
 	}
-	ev := s.call("SetAuthorizationState", id, func() error { return s.inner.SetAuthorizationState(ctx, id, a) })
+	ev := s.call(ctx, "SetAuthorizationState", id, func() error { return s.inner.SetAuthorizationState(ctx, id, a) })
 	ev.State = a
 	return ev.Err
 }
 func (s *spyStore) GetAuthorizationState(ctx context.Context, id string) (*oidc.AuthorizationState, error) {
 	var a *oidc.AuthorizationState
-	ev := s.call("GetAuthorizationState", id, func() (err error) { a, err = s.inner.GetAuthorizationState(ctx, id); return })
+	ev := s.call(ctx, "GetAuthorizationState", id, func() (err error) { a, err = s.inner.GetAuthorizationState(ctx, id); return })
 	if ev.Err != nil {
 		return nil, ev.Err
 	}
@@ -737,13 +777,13 @@ func (s *spyStore) GetAuthorizationState(ctx context.Context, id string) (*oidc.
 	return a, nil
 }
 func (s *spyStore) ClearAuthorizationState(ctx context.Context, id string) error {
-	return s.call("ClearAuthorizationState", id, func() error { return s.inner.ClearAuthorizationState(ctx, id) }).Err
+	return s.call(ctx, "ClearAuthorizationState", id, func() error { return s.inner.ClearAuthorizationState(ctx, id) }).Err
 }
 func (s *spyStore) RemoveSession(ctx context.Context, id string) error {
-	return s.call("RemoveSession", id, func() error { return s.inner.RemoveSession(ctx, id) }).Err
+	return s.call(ctx, "RemoveSession", id, func() error { return s.inner.RemoveSession(ctx, id) }).Err
 }
 func (s *spyStore) RemoveAllExpired(ctx context.Context) error {
-	return s.call("RemoveAllExpired", "", func() error { return s.inner.RemoveAllExpired(ctx) }).Err
+	return s.call(ctx, "RemoveAllExpired", "", func() error { return s.inner.RemoveAllExpired(ctx) }).Err
 }
 
 // yieldFactory (race build): scheduling points only, no recording.
@@ -765,29 +805,33 @@ type yieldStore struct {
 	oidc.SessionStore
 }
 
-func (s *yieldStore) y() { t := s.w.Sim.Cur(); s.w.Sim.Yield("s"); s.w.Sim.SetCur(t) }
+func (s *yieldStore) y(ctx context.Context) {
+	t := s.w.taskOf(ctx)
+	s.w.Sim.YieldAs(t, "s")
+	s.w.Sim.SetCur(t)
+}
 func (s *yieldStore) SetTokenResponse(ctx context.Context, id string, t *oidc.TokenResponse) error {
-	s.y()
+	s.y(ctx)
 	return s.SessionStore.SetTokenResponse(ctx, id, t)
 }
 func (s *yieldStore) GetTokenResponse(ctx context.Context, id string) (*oidc.TokenResponse, error) {
-	s.y()
+	s.y(ctx)
 	return s.SessionStore.GetTokenResponse(ctx, id)
 }
 func (s *yieldStore) SetAuthorizationState(ctx context.Context, id string, a *oidc.AuthorizationState) error {
-	s.y()
+	s.y(ctx)
 	return s.SessionStore.SetAuthorizationState(ctx, id, a)
 }
 func (s *yieldStore) GetAuthorizationState(ctx context.Context, id string) (*oidc.AuthorizationState, error) {
-	s.y()
+	s.y(ctx)
 	return s.SessionStore.GetAuthorizationState(ctx, id)
 }
 func (s *yieldStore) ClearAuthorizationState(ctx context.Context, id string) error {
-	s.y()
+	s.y(ctx)
 	return s.SessionStore.ClearAuthorizationState(ctx, id)
 }
 func (s *yieldStore) RemoveSession(ctx context.Context, id string) error {
-	s.y()
+	s.y(ctx)
 	return s.SessionStore.RemoveSession(ctx, id)
 }
 
@@ -821,15 +865,48 @@ type spyJWKS struct {
 
 func (j *spyJWKS) Get(ctx context.Context, cfg *oidcv1.OIDCConfig) (jwk.Set, error) {
 	w := j.w
-	task := w.Sim.Cur()
-	w.Sim.Yield("jwks:get")
+	task := w.taskOf(ctx)
+	w.Sim.YieldAs(task, "jwks:get")
 	w.Sim.SetCur(task)
 	if f := w.faultAt("jwks.get"); f != "" {
 		w.countFault("jwks-err")
 		return nil, errors.New("sim: injected key-source failure")
 	}
-	return j.inner.Get(ctx, cfg)
+	// One task at a time inside the key provider: the jwx cache coalesces concurrent fetches of one URL and
+	// releases all waiters at the same fake instant, after which they would run in an order (or in parallel)
+	// chosen by the runtime instead of the seed. Waiting tasks poll at their own scheduling instants.
+	for j.enter() {
+		w.probe("key-provider-calls-serialised-by-the-harness")
+		w.Sim.YieldAs(task, "jwks:wait")
+		w.Sim.SetCur(task)
+	}
+	set, err := func() (jwk.Set, error) {
+		defer j.leave() // also when the provider panics (the check's recover() turns that into a verdict)
+		return j.inner.Get(ctx, cfg)
+	}()
+	w.Sim.SetCur(task)
+	if err != nil && task != nil {
+		w.mu.Lock()
+		c := w.active[task.ID]
+		w.mu.Unlock()
+		c.failedAfterCancel("jwks.get")
+	}
+	return set, err
 }
+
+// enter reports whether the provider is busy; if not, it marks it busy.
+//
+//go:norace
+func (j *spyJWKS) enter() bool {
+	if j.w.jwksBusy {
+		return true
+	}
+	j.w.jwksBusy = true
+	return false
+}
+
+//go:norace
+func (j *spyJWKS) leave() { j.w.jwksBusy = false }
 
 // ---------------------------------------------------------------------------------------------
 // Ground truth (never through the fault wrapper, never touching access times)
@@ -926,6 +1003,43 @@ type CheckRec struct {
 	Perturbed  bool // the store content was perturbed (eviction, corruption) during this check
 	Abandoned  bool // the replica crashed inside this check: no verdict
 	PanicStack string
+	Cancelled  bool // the caller (Envoy) gave up on this check while it was running: its context was cancelled
+	ctx        context.Context
+	cancel     context.CancelFunc
+}
+
+type taskKey struct{}
+
+// taskOf returns the task a call belongs to: the identity travels in the request context of the check (every
+// store and key-source call receives it), which stays right even when the simulator's "current task" is stale
+// because several goroutines were released together inside the service or a library.
+func (w *World) taskOf(ctx context.Context) *Task {
+	if ctx != nil {
+		if t, ok := ctx.Value(taskKey{}).(*Task); ok && t != nil {
+			return t
+		}
+	}
+	return w.Sim.Cur()
+}
+
+// cancelNow models Envoy's ext_authz timeout firing: the request context of the check is cancelled while the
+// check keeps running. It is not a failure of any component by itself.
+func (c *CheckRec) cancelNow(w *World) {
+	if c == nil || c.cancel == nil || c.Cancelled {
+		return
+	}
+	c.Cancelled = true
+	w.countFault("request-context-cancelled")
+	c.cancel()
+}
+
+// failedAfterCancel records that a call made with the cancelled context failed: from then on the check has a
+// genuine component failure inside it (the rules for faulted checks apply). Only components that really depend
+// on the context qualify: a Redis-backed store and the fetching key provider, not the in-memory store.
+func (c *CheckRec) failedAfterCancel(site string) {
+	if c != nil && c.Cancelled {
+		c.Faults = append(c.Faults, site+":failed-after-cancel")
+	}
 }
 
 func pathComponent(full string) string {
@@ -1133,24 +1247,26 @@ func (w *World) invoke(rec *CheckRec, req *envoy.CheckRequest) {
 		rec.Err = errors.New("no replica")
 		return
 	}
-	rec.Resp, rec.Err = w.dispatch(rec.Filter, req)
+	rec.ctx, rec.cancel = context.WithCancel(context.WithValue(context.Background(), taskKey{}, w.Sim.Cur()))
+	defer rec.cancel()
+	rec.Resp, rec.Err = w.dispatch(rec.ctx, rec.Filter, req)
 }
 
 // dispatch sends a request into the replica: through ExtAuthZFilter.Check (the service's API), or — in
 // handler mode, for single-filter worlds without trigger rules — through ONE long-lived oidcHandler per
 // filter built with the same constructor Check uses (component level: whatever a handler or its
 // identifier generator keeps between requests is then shared, as the handler's own tests share it).
-func (w *World) dispatch(fi int, req *envoy.CheckRequest) (*envoy.CheckResponse, error) {
+func (w *World) dispatch(ctx context.Context, fi int, req *envoy.CheckRequest) (*envoy.CheckResponse, error) {
 	if !w.Spec.HandlerMode || fi < 0 {
-		return w.viaInterceptors(req)
+		return w.viaInterceptors(ctx, req)
 	}
 	h, err := w.sharedHandler(fi)
 	if err != nil {
 		// (e.g. the provider was unreachable when the handler was to be built) fall back to the service's API
-		return w.viaInterceptors(req)
+		return w.viaInterceptors(ctx, req)
 	}
 	resp := &envoy.CheckResponse{}
-	if err := h.Process(context.Background(), req, resp); err != nil {
+	if err := h.Process(ctx, req, resp); err != nil {
 		return nil, err
 	}
 	return resp, nil
@@ -1159,10 +1275,10 @@ func (w *World) dispatch(fi int, req *envoy.CheckRequest) (*envoy.CheckResponse,
 // viaInterceptors calls ExtAuthZFilter.Check through the same unary interceptor chain, in the same order, as
 // server.Server installs on its gRPC server (request-id propagation, request/response logging), so that
 // their code runs under the harness's recover() like the rest of a check.
-func (w *World) viaInterceptors(req *envoy.CheckRequest) (*envoy.CheckResponse, error) {
+func (w *World) viaInterceptors(ctx0 context.Context, req *envoy.CheckRequest) (*envoy.CheckResponse, error) {
 	info := &grpc.UnaryServerInfo{FullMethod: "/envoy.service.auth.v3.Authorization/Check"}
 	logmw := server.NewLogMiddleware()
-	out, err := server.PropagateRequestID(context.Background(), req, info, func(ctx context.Context, r interface{}) (interface{}, error) {
+	out, err := server.PropagateRequestID(ctx0, req, info, func(ctx context.Context, r interface{}) (interface{}, error) {
 		return logmw.UnaryServerInterceptor(ctx, r, info, func(ctx context.Context, r interface{}) (interface{}, error) {
 			cr, _ := r.(*envoy.CheckRequest)
 			return w.Rep.filter.Check(ctx, cr)
@@ -1289,3 +1405,58 @@ func (w *World) FaultSummary() string {
 	sort.Strings(parts)
 	return strings.Join(parts, ",")
 }
+
+// oomHook is the miniredis pre-hook of the redis-torn fault. It runs on the server's goroutines (outside the bubble).
+func oomHook(srv *redisserver.Server, k int, n, failed *atomic.Int64) redisserver.Hook {
+	var mu sync.Mutex
+	inMulti := map[*redisserver.Peer]bool{}
+	var nested atomic.Bool
+	const msg = "OOM command not allowed when used memory > 'maxmemory'."
+	return func(c *redisserver.Peer, cmd string, args ...string) bool {
+		if nested.Load() {
+			return false // our own Dispatch below
+		}
+		mu.Lock()
+		defer mu.Unlock()
+		switch cmd {
+		case "HELLO", "CLIENT", "AUTH", "SELECT", "PING":
+			return false
+		}
+		failing := n.Add(1) >= int64(k)
+		tx := inMulti[c]
+		switch cmd {
+		case "MULTI":
+			if !failing {
+				inMulti[c] = true
+			}
+		case "EXEC", "DISCARD":
+			delete(inMulti, c)
+		}
+		if !failing {
+			return false
+		}
+		failed.Add(1)
+		switch {
+		case tx && cmd == "EXEC":
+			if failed.Load() > 1 {
+				return false // a queued command was refused: the server answers EXECABORT and drops the transaction
+			}
+			// EXEC itself is the first refused command: the transaction is dropped, nothing is applied
+			nested.Store(true)
+			srv.Dispatch(c, []string{"DISCARD"})
+			nested.Store(false)
+			return true
+		case tx && cmd != "DISCARD":
+			// refuse the queued command the way the server does: error reply, transaction flagged for abort
+			nested.Store(true)
+			srv.Dispatch(c, []string{cmd})
+			nested.Store(false)
+			return true
+		}
+		c.WriteError(msg)
+		return true
+	}
+}
+
+// isRedisKind reports whether a filter's store kind of the spec is backed by a Redis server.
+func isRedisKind(kind string) bool { return strings.HasPrefix(kind, "redis") }
